@@ -435,6 +435,7 @@ func TestC15(t *testing.T) {
 		}
 		return firstCallCheck()
 	})
+	learnClasses()
 	if !requireHooks(t) {
 		return
 	}
